@@ -345,6 +345,29 @@ def costIter : Nat → List Block → Nat
 /-- lines all loop expansions of the program produce together (compared with `MAX_EXPANDED_LINES`) -/
 def cost (bs : List Block) : Nat := costIter MAX_EXPANSION_PASSES bs
 
+/-! ### the expansion cost in closed form (equal to `cost`, see `Lemmas/Expand.lean`) -/
+
+mutual
+/-- number of text lines of a block -/
+def linesB : Block → Nat
+  | .decl _ cs => 1 + cs.length
+  | .loop _ _ _ _ body => 1 + linesL body
+def linesL : List Block → Nat
+  | [] => 0
+  | b :: bs => linesB b + linesL bs
+end
+
+mutual
+/-- lines all expansions of a block produce: every loop instance contributes its iterations times the
+lines of its body, and then the expansions inside each copy -/
+def costB : Block → Nat
+  | .decl _ _ => 0
+  | .loop _ s e _ body => (e - s).toNat * (linesL body + costL body)
+def costL : List Block → Nat
+  | [] => 0
+  | b :: bs => costB b + costL bs
+end
+
 /-! ### well-formed loop programs (the premise of the C42 theorem) -/
 
 /-- does not start (after leading white space) with `for ` -/
